@@ -16,6 +16,7 @@ pub fn gen_cfg() -> GenCfg {
         max_modules: 3,
         max_types: 6,
         qualified_refs_pct: 40,
+        oid_prefix_pct: 50,
         ..GenCfg::default()
     }
 }
